@@ -46,10 +46,30 @@ Fixpoint pv_plain (v : pv) : bool :=
   match v with
   | PStr s => no_newline s
   | PArr l => forallb pv_plain l
-  | PDict d =>
-      (fix go (l : dict) : bool :=
-         match l with [] => true | (k, x) :: r => no_newline k && pv_plain x && go r end) d
+  | PDict d => forallb (fun kx => let '(k, x) := kx in no_newline k && pv_plain x) d
   | _ => true
+  end.
+
+(** plist values whose written form reads back as themselves: text without line breaks (or indent
+    width 0: outside F3), finite reals, integers within the i64 / u64 range, bytes below 256,
+    well-shaped dates, no repeated key in a dictionary *)
+Definition int_ok (z : Z) : bool := (- 2 ^ 63 <=? z)%Z && (z <? 2 ^ 64)%Z.
+Definition bytes_ok (b : list N) : bool := forallb (fun c => c <? 256) b.
+Definition text_ok (width : nat) (s : str) : bool := Nat.eqb width 0 || no_newline s.
+Fixpoint nodup_keys (l : list str) : bool :=
+  match l with [] => true | x :: r => negb (mem_str x r) && nodup_keys r end.
+Fixpoint pv_good (width : nat) (v : pv) : bool :=
+  match v with
+  | PStr s => text_ok width s
+  | PInt z => int_ok z
+  | PReal x => match x with FFin _ _ _ => true | _ => false end
+  | PBool _ => true
+  | PData b => bytes_ok b
+  | PDate s => date_shape s
+  | PArr l => forallb (pv_good width) l
+  | PDict d =>
+      nodup_keys (map fst d) &&
+      forallb (fun kx => let '(k, x) := kx in text_ok width k && pv_good width x) d
   end.
 
 Section Encoder.
@@ -130,6 +150,13 @@ Section Encoder.
     end.
   Definition text_kids (s : str) : list node := match s with [] => [] | _ => [Text s] end.
 
+  (** the children of a <dict>: key, value, key, value ... *)
+  Definition dict_nodes (f : pv -> node) : dict -> list node :=
+    fix go (d : dict) : list node :=
+    match d with
+    | [] => []
+    | (k, x) :: r => Elem n_key [] (text_kids (reindent k)) :: f x :: go r
+    end.
   Fixpoint pv_node (v : pv) : node :=
     match v with
     | PStr s => Elem n_string [] (text_kids (reindent s))
@@ -141,13 +168,7 @@ Section Encoder.
     | PArr [] => Empty n_array []
     | PArr l => Elem n_array [] (map pv_node l)
     | PDict [] => Empty n_dict []
-    | PDict d =>
-        Elem n_dict []
-          ((fix go (l : dict) : list node :=
-              match l with
-              | [] => []
-              | (k, x) :: r => Elem n_key [] (text_kids (reindent k)) :: pv_node x :: go r
-              end) d)
+    | PDict d => Elem n_dict [] (dict_nodes pv_node d)
     end.
 
   (** [dump_object_libs]: in the order anchors, guidelines, contours (+ points), components;
@@ -211,13 +232,22 @@ End Encoder.
 (** ---------- the classes of valid glyphs known not to survive encode-then-parse ---------- *)
 Definition olib_plain (l : option dict) : bool :=
   match l with Some d => pv_plain (PDict d) | None => true end.
-Definition libs_plain (g : glyph) : bool :=
-  pv_plain (PDict (glib g)) &&
-  forallb (fun a => olib_plain (alib a)) (ganchors g) &&
-  forallb (fun x => olib_plain (gulib x)) (gguides g) &&
-  forallb (fun c => olib_plain (clib c) && forallb (fun p => olib_plain (plib p)) (cpoints c))
+(** a condition on every object lib (contours without points are not written) *)
+Definition libs_all (P : option dict -> bool) (g : glyph) : bool :=
+  forallb (fun a => P (alib a)) (ganchors g) &&
+  forallb (fun x => P (gulib x)) (gguides g) &&
+  forallb (fun c => P (clib c) && forallb (fun p => P (plib p)) (cpoints c))
           (filter has_points (gcontours g)) &&
-  forallb (fun c => olib_plain (colib c)) (gcomps g).
+  forallb (fun c => P (colib c)) (gcomps g).
+Definition libs_plain (g : glyph) : bool := pv_plain (PDict (glib g)) && libs_all olib_plain g.
+(** lib values the property-list writer and reader agree on, whatever the options: no duplicate
+    keys, integers in range, finite reals, bytes, well-shaped dates; the glyph lib has no
+    [public.objectLibs] entry of its own *)
+Definition pv_valid (v : pv) : bool := pv_good 0 v.
+Definition olib_valid (l : option dict) : bool :=
+  match l with Some d => pv_valid (PDict d) | None => true end.
+Definition libs_valid (g : glyph) : bool :=
+  negb (has_key objlibs_key (glib g)) && pv_valid (PDict (glib g)) && libs_all olib_valid g.
 Definition note_survives (n : option str) : bool :=
   match n with
   | None => true
@@ -227,3 +257,26 @@ Definition note_survives (n : option str) : bool :=
     begins or ends with a blank *)
 Definition c02_f3 (o : wopts) (g : glyph) : bool :=
   (negb (Nat.eqb (o_count o) 0) && negb (libs_plain g)) || negb (note_survives (gnote g)).
+
+(** ---------- object libs: what the writer moves out and the reader moves back ---------- *)
+(** the glyph as the reader has it before [load_object_libs]: no object carries a lib *)
+Definition strip_point (p : point) : point :=
+  mkPoint (px p) (py p) (ptyp p) (psmooth p) (pname p) (pid p) None.
+Definition strip_libs (g : glyph) : glyph :=
+  mkGlyph (gname g) (gwidth g) (gheight g) (gcps g) (gnote g) (gimage g)
+    (map (fun x => mkGuide (gline x) (guname x) (gcolor x) (guid x) None) (gguides g))
+    (map (fun a => mkAnchor (ax a) (ay a) (aname a) (acolor a) (aid a) None) (ganchors g))
+    (map (fun c => mkComp (cbase c) (ctrans c) (coid c) None) (gcomps g))
+    (map (fun c => mkContour (map strip_point (cpoints c)) (cid c) None) (gcontours g))
+    (glib g).
+(** dump the object libs into the lib (the writer), then read them back onto the objects (the
+    reader), without the XML in between *)
+Definition relib (g : glyph) : res glyph :=
+  bind (written_lib g) (fun lib => load_object_libs (set_lib (strip_libs g) lib)).
+(** every object that carries a lib has an identifier *)
+Definition libs_have_ids (g : glyph) : Prop :=
+  Forall (fun a => alib a <> None -> aid a <> None) (ganchors g) /\
+  Forall (fun x => gulib x <> None -> guid x <> None) (gguides g) /\
+  Forall (fun c => (clib c <> None -> cid c <> None) /\
+                   Forall (fun p => plib p <> None -> pid p <> None) (cpoints c)) (gcontours g) /\
+  Forall (fun c => colib c <> None -> coid c <> None) (gcomps g).
